@@ -7,6 +7,7 @@ import (
 	"reflect"
 	"sort"
 
+	apiv1 "k8s.io/api/core/v1"
 	discoveryV1 "k8s.io/api/discovery/v1"
 	"sigs.k8s.io/controller-runtime/pkg/client"
 	"sigs.k8s.io/controller-runtime/pkg/client/fake"
@@ -69,6 +70,10 @@ func (w *World) Apply(key p.Key, obj client.Object) (oldObj, newObj client.Objec
 	}
 	n := obj.DeepCopyObject().(client.Object)
 	ki := kindByName[key.Kind]
+	var wantStatus *apiv1.ServiceStatus // the fake client overwrites .status of the object passed to Create/Update
+	if svc, ok := n.(*apiv1.Service); ok {
+		wantStatus = svc.Status.DeepCopy()
+	}
 	if oldObj == nil {
 		n.SetGeneration(1)
 		n.SetResourceVersion("")
@@ -85,6 +90,20 @@ func (w *World) Apply(key p.Key, obj client.Object) (oldObj, newObj client.Objec
 		n.SetResourceVersion(oldObj.GetResourceVersion())
 		if err := w.cl.Update(ctx, n); err != nil {
 			return nil, nil, err
+		}
+	}
+	if wantStatus != nil {
+		// Service has a status sub-resource: Create/Update leave .status alone. The load-balancer controller writes it
+		// separately; the harness folds that write into the same step (one informer notification, old → new).
+		cur := &apiv1.Service{}
+		if err := w.cl.Get(ctx, key.NN, cur); err != nil {
+			return nil, nil, err
+		}
+		if !reflect.DeepEqual(cur.Status, *wantStatus) {
+			cur.Status = *wantStatus
+			if err := w.cl.Status().Update(ctx, cur); err != nil {
+				return nil, nil, err
+			}
 		}
 	}
 	// read back what the server stored (resourceVersion assigned by the tracker)
